@@ -147,7 +147,17 @@ class VCSAPI:
     def status(self, required_files: typ.Set[str]) -> typ.List[str]:
         """Get status lines."""
         status_output = self('status')
-        status_items  = [line.split(" ", 1) for line in status_output.splitlines()]
+        status_items: typ.List[typ.Tuple[str, str]] = []
+        for line in status_output.splitlines():
+            if self.name == 'git':
+                # porcelain format: two status columns (either may be a space),
+                # one space, then the path (or "old -> new" for a rename)
+                status = line[:2].strip()
+                for filepath in line[3:].split(" -> "):
+                    status_items.append((status, filepath))
+            else:
+                status, filepath = line.split(" ", 1)
+                status_items.append((status, filepath))
 
         return [
             filepath.strip()
